@@ -237,7 +237,7 @@ func runReplayFile(path string) int {
 	}
 	var meta struct {
 		Pkg, Func, ID, Kind string
-		Args               []int64
+		Args                []int64
 	}
 	if err := json.Unmarshal(b, &meta); err != nil {
 		fmt.Fprintln(os.Stderr, "replay:", err)
